@@ -620,7 +620,7 @@ func runWitnessTest(repo, pkg, file, src string) (string, bool) {
 		copyFile(filepath.Join(repo, "go.mod"), modf)
 		copyFile(filepath.Join(repo, "go.sum"), filepath.Join(dir, "go.sum"))
 	}
-	ctx, cancel := context.WithTimeout(context.Background(), 180*time.Second)
+	ctx, cancel := context.WithTimeout(context.Background(), 600*time.Second)
 	defer cancel()
 	cmd := exec.CommandContext(ctx, "bash", "-c", fmt.Sprintf("ulimit -v 8000000; cd %s && go test -modfile=%s -overlay %s -vet=off -count=1 -timeout 60s -run '^TestReplayVerif$' -v %s", repo, modf, ovFile, pkg))
 	cmd.Env = append(os.Environ(), "GOFLAGS=-mod=mod", "GOPROXY=off", "GOSUMDB=off", "GOTOOLCHAIN=local")
